@@ -234,6 +234,8 @@ int gen_matrix(const case_t *c, rng_t *r, csc_t *A)
         }
     }
 
+    if (cint(c, "symmpat", 0) && m == n)     /* structurally symmetric pattern */
+        for (int_t j = 0; j < n; ++j) for (int_t i = 0; i < j; ++i) if (P(i, j) || P(j, i)) { if (!P(i, j)) P(i, j) = 1; if (!P(j, i)) P(j, i) = 1; }
     /* diagonal dominance needs a structurally full diagonal */
     if (cstr(c, "dom", "")[0] && m == n)
         for (int_t j = 0; j < n; ++j) P(j, j) = 2;
